@@ -301,6 +301,23 @@ func (ba *flatBlobAccess) GetFromComposite(ctx context.Context, parentDigest, ch
 		}
 		ba.refreshesBlobsDurationGetFromComposite.Observe(time.Since(refreshStart).Seconds())
 		ba.refreshesBlobsGetFromComposite.Observe(1)
+	} else {
+		// The lock was dropped while slicing, which invalidated
+		// the location of the parent object that was read
+		// previously. Look it up once more.
+		parentLocation, err = ba.keyLocationMap.Get(parentKey)
+		if err != nil {
+			ba.lock.Unlock()
+			if status.Code(err) == codes.NotFound {
+				// The parent object disappeared in the
+				// meantime, so there is nothing that the
+				// slices can refer to. The child object
+				// can still be returned.
+				return bChild
+			}
+			bChild.Discard()
+			return buffer.NewBufferFromError(err)
+		}
 	}
 
 	// Create key-location map entries for each of the slices. This
